@@ -295,7 +295,7 @@ class Outcome:
     def finish(self):
         for fid, (what, n) in sorted(self.known.items()):
             print("KNOWN-FINDING: property=%s %s [%s, %d occurrence(s) this run]" % (self.prop, what, fid, n))
-        for d in self.drift[:20]:
+        for d in self.drift[:5]:
             log("MODEL-DRIFT: property=%s %s" % (self.prop, d))
         cov = {
             "states": self.states,
